@@ -5,9 +5,9 @@ use crate::rulegen;
 use crate::util::*;
 use serde_json::{json, Value};
 
-pub const SEEDS: [&str; 12] = ["pa", "ta.pi", "ˈpa.taˌki", "a", "t", "paː", "taːː.pa", "pa5.ta51", "pa1234.pi55.ta3", "pat.ta", "ˌtaˈpat", "i.a"];
+pub const SEEDS: [&str; 14] = ["pa", "ta.pi", "ˈpa.taˌki", "a", "t", "paː", "taːː.pa", "pa5.ta51", "pa1234.pi55.ta3", "pat.ta", "ˌtaˈpat", "i.a", "ma214.a51", "pa1234.ta5.ki21"];
 
-pub const RULES: [&str; 66] = [
+pub const RULES: [&str; 70] = [
     // deletion of segments, syllables, boundaries
     "a > *", "C > * / _#", "V > * / C_#", "% > * / _%", "$ > *", "$ > * / _C", "%:[-stress] > * / _%", "t > * / #_", "V > * / _V", "C > * / _$", "%=1 > * / 1_",
     // insertion of boundaries, segments, syllables, structures, variables
@@ -17,7 +17,7 @@ pub const RULES: [&str; 66] = [
     // substitution with structures, syllables, variables, length
     "a > ⟨ti⟩", "% > ⟨pa⟩ / _#", "C > ⟨ta⟩ / #_", "V > [+long]", "V:[+long] > [-long]", "V > [+overlong] / _#", "C=1 V=2 > 2 1", "V=1 C > 1:[+long] / _#", "a a > i", "p a > i", "t a t > i", "%=1 % > 1 1", "C V > i", "V C V > a", "% > ⟨i⟩:[tone:5] / #_",
     // stress and tone
-    "% > [tone:51]", "%:[tone:51] > [tone:1234]", "% > [+stress] / #_", "%:[+stress] > [-stress]", "V > [+sec.stress] / _#", "% > [tone:0]", "$ > * / _V", "V > [tone:5] / _C",
+    "% > [tone:51]", "%:[tone:51] > [tone:1234]", "% > [tone:50] / _#", "%:[tone:5] > [tone:105]", "$ > * / %:[tone:5]_", "V$ > * / _V", "% > [+stress] / #_", "%:[+stress] > [-stress]", "V > [+sec.stress] / _#", "% > [tone:0]", "$ > * / _V", "V > [tone:5] / _C",
     // place and nodes
     "C > [-place] / _#", "[+cons] > [αPLACE] / _[+cons, αPLACE]", "t > [+lab]", "p > [-lab]", "V > [+round]", "[] > [-dor]", "C > [+phr]", "[+lab] > [-lab, -cor, -dor, -phr]", "V > [αdor] / _[αdor]",
 ];
